@@ -260,7 +260,9 @@ def job_history(args: dict) -> dict:
             if e["kind"] == "draw":
                 last_draw = e["pre"]
             elif e["kind"] == "kernel":
-                prov[0] = last_draw
+                # (with the arguments: two runs from the same seed that happen to consume equally many rand()s
+                # end in the same C state although they are different runs)
+                prov[0] = (last_draw, e["name"], e.get("args"))
 
     initial = snap()
     steps = []
